@@ -430,6 +430,73 @@ def traceOps (sp : Space) : St → Config → List (Op × Int × List Nat) →
     | .error e => [.error e]
     | .ok (st', cfg', r) => .ok (cfg', r) :: traceOps sp st' cfg' t
 
+/-- the direction that undoes a pair move: both controllers move the other way -/
+def Dir.opposite : Dir → Dir
+  | .NE => .SW | .NW => .SE | .SE => .NW | .SW => .NE
+
+/-! ### a search that keeps a population of configurations
+
+The operators are applied to *some* member of a population while the expression (the
+controllers) is left in whatever state the previous operation put it; between two operator
+calls the caller may configure the expression, select one alternative of one controller, move
+a controller directly or iterate.  `Event` lists these operations, `stepEvent` is what each
+does to (state of the controllers, members of the population). -/
+
+inductive Event where
+  /-- `operators[key](members[src], step)`, the result stored as member `dst` -/
+  | apply (o : Op) (step : Int) (choices : List Nat) (src dst : Nat)
+  /-- `expression.configure_catalogs(cfg)` (also: an iteration that ends on `cfg`) -/
+  | configure (cfg : Config)
+  /-- `expression.select_expression(name, index)` -/
+  | setCtrl (n : Name) (i : Int)
+  /-- `controller.modify_controller(step, circular)` on the controller object itself -/
+  | modifyCtrl (n : Name) (step : Int) (circular : Bool)
+
+def setMember : List Config → Nat → Config → List Config
+  | [], _, _ => []
+  | _ :: t, 0, c => c :: t
+  | a :: t, k + 1, c => a :: setMember t k c
+
+/-- one event: new state, new members, what the call returned (configuration and/or number) -/
+def stepEvent (sp : Space) (st : St) (pop : List Config) :
+    Event → Except Err (St × List Config × Option Config × Option Int)
+  | .apply o step ch src dst =>
+    match pop[src]? with
+    | none => .error .wrongIndex
+    | some cfg =>
+      match applyOp sp st o cfg step ch with
+      | .error e => .error e
+      | .ok (st', cfg', r) => .ok (st', setMember pop dst cfg', some cfg', some r)
+  | .configure cfg =>
+    match setConfiguration sp st cfg with
+    | .error e => .error e
+    | .ok st' => .ok (st', pop, none, none)
+  | .setCtrl n i =>
+    match setController sp st n i with
+    | .error e => .error e
+    | .ok st' => .ok (st', pop, none, none)
+  | .modifyCtrl n step circular =>
+    match findCtrl sp n with
+    | none => .error .unknownController
+    | some c =>
+      match modifyController c (st n) step circular with
+      | .error e => .error e
+      | .ok (i, r) => .ok (st.set n i, pop, none, some r)
+
+/-- a whole sequence of events (stops at the first operation that raises) -/
+def runEvents (sp : Space) : St → List Config → List Event → Except Err (St × List Config)
+  | st, pop, [] => .ok (st, pop)
+  | st, pop, ev :: t =>
+    match stepEvent sp st pop ev with
+    | .error e => .error e
+    | .ok (st', pop', _, _) => runEvents sp st' pop' t
+
+/-- the same sequence without the operations that are not operator calls -/
+def onlyApplies : List Event → List Event
+  | [] => []
+  | .apply o k ch s d :: t => .apply o k ch s d :: onlyApplies t
+  | _ :: t => onlyApplies t
+
 /-- validity of a configuration for a space: the controllers of the space, in order, each
 with one of its specifications -/
 def validCfgB : Space → Config → Bool
